@@ -38,12 +38,22 @@ ASSUMPTIONS = [
 ]
 
 
+# strings that are refused at different points of the lexer (a close where a number is due, a missing operand, junk);
+# one of them is parsed - and its ValueError swallowed - before every conforming string: the meaning of a conforming
+# string does not depend on what was refused before it
+REFUSED = ["M 0 0 L 10 z", "M0,0 h z", "M0,0 a 5 5 0 z", "M1,1 L", "M 1 2 3", "M0,0 q1,1 z 5", "x", "M0,0 L1,1 t", "M0,0 A1,1 0 2 0 1,1"]
+
+
 def run_string(svg, d, out, tags=None, expect_ok=True):
     """parse d with reference and implementation, compare; returns (ref result, impl path or None)"""
     ref = pathspec.parse(d)
     if not ref.ok:
         return ref, None
     out.traces += 1
+    try:
+        svg.Path(REFUSED[len(d) % len(REFUSED)])
+    except Exception:  # noqa
+        pass
     try:
         p = svg.Path(d)
     except Exception as e:  # noqa
